@@ -49,3 +49,28 @@ pub proof fn welford_remove_core(n: real, mu: real, s: real, q: real, m2: real, 
     assert((n - 1real) * (q - xx) == n * q - n * xx - q + xx) by(nonlinear_arith);
     assert((s - x) * (s - x) == s * s - 2real * x * s + x * x) by(nonlinear_arith);
 }
+
+pub proof fn lemma_mul_dist(a: real, b: real, c: real) ensures (a + b) * c == a * c + b * c
+{ assert((a + b) * c == a * c + b * c) by(nonlinear_arith); }
+pub proof fn lemma_mul_zero(a: real) ensures 0real * a == 0real
+{ assert(0real * a == 0real) by(nonlinear_arith); }
+// 100 - 100/(1 + ag/al) == 100 G/(G+L)  with G = ag n, L = al n (the RSI identity), and the inner denominators are non-zero
+pub proof fn lemma_rsi_identity(ag: real, al: real, n: real, g: real, l: real, rs: real, inner: real, res: real)
+    requires n > 0real, ag * n == g, al * n == l, ag >= 0real, al > 0real,
+        rs * al == ag, inner * (1real + rs) == 100real, res * (g + l) == 100real * g,
+    ensures 1real + rs > 0real, g + l > 0real, 100real - inner == res
+{
+    assert(rs >= 0real) by(nonlinear_arith) requires rs * al == ag, ag >= 0real, al > 0real;
+    assert(l > 0real) by(nonlinear_arith) requires al * n == l, al > 0real, n > 0real;
+    assert(g >= 0real) by(nonlinear_arith) requires ag * n == g, ag >= 0real, n > 0real;
+    // g + l = n (ag + al) = n al (rs + 1)
+    assert(g + l == (n * al) * (1real + rs)) by(nonlinear_arith) requires ag * n == g, al * n == l, rs * al == ag;
+    // res * (g+l) = 100 g ; (100 - inner) * (g + l) = 100 (g+l) - inner (1+rs) (n al) = 100 (g + l) - 100 n al = 100 (g+l) - 100 l = 100 g
+    assert(inner * ((n * al) * (1real + rs)) == (inner * (1real + rs)) * (n * al)) by(nonlinear_arith);
+    assert((inner * (1real + rs)) * (n * al) == 100real * l) by(nonlinear_arith) requires inner * (1real + rs) == 100real, al * n == l;
+    let gl = g + l;
+    assert((100real - inner) * gl == 100real * gl - inner * gl) by(nonlinear_arith);
+    assert(inner * gl == 100real * l) by(nonlinear_arith) requires gl == (n * al) * (1real + rs), inner * ((n * al) * (1real + rs)) == 100real * l;
+    assert((100real - inner) * gl == res * gl);
+    assert(100real - inner == res) by(nonlinear_arith) requires (100real - inner) * gl == res * gl, gl > 0real;
+}
